@@ -84,6 +84,19 @@ impl Filter {
         output: &'a mut [u8],
     ) -> Result<&'a Filter, Error> {
         let length = Self::output_size_needed(ids, authors, kinds, tags);
+        // The counts are u16 fields and the filter length is a u32 field
+        if ids.len() > u16::MAX as usize {
+            return Err(InnerError::OutOfRange(ids.len()).into());
+        }
+        if authors.len() > u16::MAX as usize {
+            return Err(InnerError::OutOfRange(authors.len()).into());
+        }
+        if kinds.len() > u16::MAX as usize {
+            return Err(InnerError::OutOfRange(kinds.len()).into());
+        }
+        if length > u32::MAX as usize {
+            return Err(InnerError::OutOfRange(length).into());
+        }
         if output.len() < length {
             return Err(InnerError::BufferTooSmall(length).into());
         }
